@@ -949,3 +949,44 @@ def clone_shares_mutable_state(rep: Report, rule: str, idx: Index, classes) -> i
                 ok = v.attr not in mutated
                 rep.check(ok, rule, f"{ci.name}.{mname}: `{v.attr}` handed to the copy is never changed in place", mf.loc(a), construct=norm(a)[:70] + ("" if ok else f" — mutated in place by {mutated[v.attr]}"), detail="" if ok else f"original and copy now hold the same `{v.attr}` object, which {mutated[v.attr]} changes in place: an operation on one of them changes what the other one answers (for a cache: the other one's analysis is returned)", function=mf.qualname)
     return n
+
+
+# ------------------------------------------------------------------------------------ one level of helper inlining
+def through_helper(ci, f: FuncInfo, name: str):
+    """`name` is bound in f by unpacking the result of a private helper of the same class — directly
+    (`i, name, v = self._h(a, b)`) or through one local (`r = self._h(a, b)` … `i, name, v = r`). Returns
+    (helper FuncInfo, the helper's name for that tuple position, {helper parameter: caller argument text},
+    [Return statements of the helper that return such a tuple]) or None. One level, same class: the summary bound
+    of the 'extract method' refactoring."""
+    for a in walk_no_nested(f.node):
+        if not (isinstance(a, ast.Assign) and len(a.targets) == 1 and isinstance(a.targets[0], ast.Tuple)):
+            continue
+        elts = a.targets[0].elts
+        pos = [i for i, t in enumerate(elts) if isinstance(t, ast.Name) and t.id == name]
+        if not pos:
+            continue
+        calls = []
+        if isinstance(a.value, ast.Call):
+            calls = [a.value]
+        elif isinstance(a.value, ast.Name):
+            calls = [b.value for b in walk_no_nested(f.node) if isinstance(b, ast.Assign) and len(b.targets) == 1 and isinstance(b.targets[0], ast.Name) and b.targets[0].id == a.value.id and isinstance(b.value, ast.Call)]
+        calls = [c for c in calls if isinstance(c.func, ast.Attribute) and norm(c.func.value) == "self"]
+        names = {c.func.attr for c in calls}
+        if len(names) != 1:
+            continue
+        h = ci.methods.get(next(iter(names)))
+        if h is None:
+            continue
+        rets = [r for r in walk_no_nested(h.node) if isinstance(r, ast.Return) and isinstance(r.value, ast.Tuple) and len(r.value.elts) == len(elts)]
+        if not rets or not all(isinstance(r.value.elts[pos[0]], ast.Name) for r in rets):
+            continue
+        hname = rets[0].value.elts[pos[0]].id
+        if any(r.value.elts[pos[0]].id != hname for r in rets):
+            continue
+        hp = [p for p in h.params() if p != "self"]
+        pmap = {p: norm(arg) for p, arg in zip(hp, calls[0].args)}
+        for k in calls[0].keywords:
+            if k.arg:
+                pmap[k.arg] = norm(k.value)
+        return h, hname, pmap, rets
+    return None
